@@ -260,7 +260,7 @@ def main():
                     # blank lines anywhere, also before the defective line: they are skipped but counted
                     for _ in range(rng.randint(1, 2)):
                         q = rng.randint(0, len(text))
-                        text = text[:q] + [rng.choice(['', ' ', '  '])] + text[q:]
+                        text = text[:q] + [rng.choice(['', ' ', '  ', '\t', '\xa0', '\u3000 '])] + text[q:]
                 unit = 'syllable' if sep[1] and rng.random() < 0.4 else 'phone'
                 for tol in (False, True):
                     for cpx in ((True, False) if name.startswith('punctuation') else (cp,)):
